@@ -22,7 +22,7 @@ ASSUMPTIONS = ['PyWavelets 1.10 wavedec/wavedec2 is the specification',
                'sizes bounded (1-D <= 130, 2-D sides <= 33), J <= 4']
 TIMEOUT = {'quick': 900, 'thorough': 3000}
 WORKER_BUDGET = {'quick': 600, 'thorough': 2400}
-MIN_HELD = {'quick': 300, 'thorough': 3000}
+MIN_HELD = {'quick': 300, 'thorough': 1500}
 KF_PER = 'periodization-level-shorter-than-filter'
 
 
@@ -52,8 +52,8 @@ def cells(tier, seed):
     rnd = core.rng_for(seed, PROP, tier)
     out = []
     waves = refs.all_wavelets()
-    n1 = 3 if tier == 'quick' else 14
-    n2 = 1 if tier == 'quick' else 5
+    n1 = 3 if tier == 'quick' else 40
+    n2 = 1 if tier == 'quick' else 10
     for w in waves:
         L = refs.flen(w)
         pool = lengths_pool(L)
@@ -61,7 +61,7 @@ def cells(tier, seed):
             short = [n for n in pool if n < L] or pool[:3]
             odd = [n for n in pool if n % 2 == 1]
             picks = {rnd.choice(short), rnd.choice(odd), rnd.choice(pool)}
-            while len(picks) < n1:
+            while len(picks) < min(n1, len(pool)):
                 picks.add(rnd.choice(pool))
             for n in sorted(picks):
                 out.append({'dim': 1, 'wave': w, 'mode': mode, 'J': rnd.choice([1, 1, 2, 3, 4]),
